@@ -52,22 +52,25 @@ func c16Timeout(args []string, _ []byte) string {
 	defer cancel()
 	h := client.NewVerifInFlight(ctx, 4, spec.MaxPend, tau)
 	f := reqFrame(client.ManagedStreamId)
+	start := time.Now() // taken BEFORE the send: the request's timer starts somewhere inside Enqueue
 	req, err := h.Enqueue(f)
 	if err != nil {
 		return "FAIL: send refused: " + err.Error()
 	}
 	id := f.Header.StreamId
-	start := time.Now()
 	last := start
 	maxGap := time.Duration(0)
 	for p := 1; p <= spec.Pages; p++ {
 		time.Sleep(tau / 20)
 		now := time.Now()
-		if g := now.Sub(last); g > maxGap {
+		err := h.Deliver(pageFrame(id, int32(p), false))
+		// the gap that matters ends when Deliver has re-armed the timer, i.e. at the latest when it returns (this
+		// goroutine may lose the CPU for a long time on a busy machine, also inside Deliver)
+		if g := time.Since(last); g > maxGap {
 			maxGap = g
 		}
 		last = now
-		if err := h.Deliver(pageFrame(id, int32(p), false)); err != nil {
+		if err != nil {
 			if maxGap >= tau/2 {
 				return "SKIP: noisy timing (a gap between pages reached half the timeout)"
 			}
@@ -116,7 +119,7 @@ func c16Timeout(args []string, _ []byte) string {
 		case <-time.After(tau + 10*time.Second):
 			return fmt.Sprintf("FAIL: request not failed %v after the last page (timeout %v)", time.Since(silence), tau)
 		}
-		if waited := time.Since(silence); waited < tau*8/10 && spec.Pages == 0 {
+		if waited := time.Since(start); waited < tau*8/10 && spec.Pages == 0 { // measured from before the send
 			return fmt.Sprintf("FAIL: request timed out after only %v of silence (timeout %v)", waited, tau)
 		}
 		// the interface contract: if Incoming is closed, IsDone is true; closed because of an error => Err returns it
@@ -153,6 +156,7 @@ func c16TimeoutProp(rt *rapid.T) {
 		Final: rapid.IntRange(0, 2).Draw(rt, "final") == 0, MaxPend: 10}
 	sj, _ := json.Marshal(spec)
 	verdict := isolated("c16timeout", []string{string(sj)}, nil)
+	verdict = harnessTrouble(verdict)
 	if strings.HasPrefix(verdict, "FAIL:") {
 		rt.Fatalf("%s\nspec %s", verdict, sj)
 	}
@@ -708,6 +712,7 @@ func runC16(rt *rapid.T, spec c16Spec, class string) {
 	rec := stats.For("C16")
 	sj, _ := json.Marshal(spec)
 	verdict := isolated("c16session", []string{string(sj)}, nil)
+	verdict = harnessTrouble(verdict)
 	if strings.HasPrefix(verdict, "FAIL:") {
 		rt.Fatalf("%s\nspec %s", verdict, sj)
 	}
@@ -744,6 +749,7 @@ func TestC16FaultMatrix(t *testing.T) {
 					spec := c16Spec{Version: v, Peer: peer, Step: step, K: 3, Answered: 1, MultiPage: v == 66, Receivers: 2, Fault: fault}
 					sj, _ := json.Marshal(spec)
 					verdict := isolated("c16session", []string{string(sj)}, nil)
+					verdict = harnessTrouble(verdict)
 					if strings.HasPrefix(verdict, "FAIL:") {
 						rec.Violation("fault-matrix", map[string]interface{}{"spec": spec, "verdict": verdict})
 						t.Errorf("%s\nspec %s", verdict, sj)
